@@ -1113,9 +1113,10 @@ func TestC19(t *testing.T) {
 	timed("parse", checkParsing)
 	timed("static", partStatic)
 	timed("scripted", partScripted)
+	timed("askunknown", partAskUnknownNode)
 	timed("chaos", partChaos)
 	timed("isolated", partCrashIsolated)
 	timed("reconnect", func(r *mon.Run) { partReconnectRace(r, t) })
 	run.Require("wellformed_slots_compared", "wellformed_shards_compared", "mutated_replies_parsed", "first_hop_on_owner", "moved_followed", "ask_followed", "asking_preceded",
-		"redirect_loops_bounded", "final_reply_checked", "final_error_checked", "executed_on_owner", "executed_on_importing_node_under_asking", "chaos_migrations", "chaos_failovers", "chaos_reassignments")
+		"redirect_loops_bounded", "final_reply_checked", "final_error_checked", "executed_on_owner", "executed_on_importing_node_under_asking", "chaos_migrations", "chaos_failovers", "chaos_reassignments", "ask_unknown_later_commands_on_primary")
 }
